@@ -20,7 +20,10 @@ VERIF = os.path.dirname(os.path.dirname(os.path.abspath(__file__)))
 REPO = os.environ.get("VERIF_REPO", "/repo")
 LEAN = os.path.join(VERIF, "lean")
 GEN = os.path.join(LEAN, "QuriVerif", "Generated")
-EVID = os.path.join(VERIF, "evidence")
+# evidence / replay of runs against a scratch copy of the repository (mutation experiments) never overwrite the
+# evidence of /repo itself
+_SCRATCH = os.path.realpath(REPO) != "/repo"
+EVID = os.path.join("/var/tmp/qv-scratch-evidence" if _SCRATCH else VERIF, "evidence")
 REPLAY = os.path.join(VERIF, "replay")
 ALLOWED_AXIOMS = {"propext", "Classical.choice", "Quot.sound"}
 FORBIDDEN = re.compile(
